@@ -257,6 +257,10 @@ func (s *LinearState) deleteDependencies(ctx *Context, id string) error {
 			Log(WARN, ctx, "LinearState.deleteDependencies", "loop", id)
 			continue
 		}
+		if rf, have := s.Facts[sr.Id]; have && !dependsOn(rf.M, id) {
+			// The id looks like a variable and matched too much.
+			continue
+		}
 		if _, err := s.rem(ctx, sr.Id, false); nil != err {
 			return err
 		}
